@@ -71,7 +71,7 @@ impl Property for C01 {
     fn cases(&self, tier: Tier) -> u32 {
         match tier {
             Tier::Quick => 30_000,
-            Tier::Thorough => 60_000,
+            Tier::Thorough => 400_000,
         }
     }
 
